@@ -2,9 +2,9 @@
    The model (Machine.v, Merge.v, ArrayShift.v) is executable Gallina; its extraction is run against the real
    momo code on every check (props/C10/harness.cpp vs ocaml/driver.ml). *)
 From Coq Require Import ZArith List Permutation.
-From C10 Require Import Machine Merge MergeProofs ArrayShift ArrayProofs MapModel MapProofs FastMerge FastPtr FastPtrProofs BulkOps HolderRefine GenRefine.
+From C10 Require Import Machine Merge MergeProofs ArrayShift ArrayProofs MapModel MapProofs FastMerge FastPtr FastPtrProofs BulkOps HolderRefine GenRefine ProtoSyntaxC10 ProtoMergeC10.
 From MomoCommon Require GenPrelude.
-From C10 Require Gen_Holder Gen_HolderTree Gen_StdInsert Gen_StdInsertU Gen_StdInsertN Gen_MergeTo Gen_TreeSwap Gen_ExtraCheckT Gen_ExtraCheckH.
+From C10 Require Gen_Holder Gen_HolderTree Gen_StdInsert Gen_StdInsertU Gen_StdInsertN Gen_MergeTo Gen_TreeSwap Gen_ExtraCheckT Gen_ExtraCheckH Gen_MergeProto.
 Notation GOk := GenPrelude.Ok. Notation GStuck := GenPrelude.Stuck. Notation GExn := GenPrelude.Exn.
 Import ListNotations.
 Local Open Scope Z_scope.
@@ -651,3 +651,48 @@ Theorem C10_gen_std_insert_node_refused_comes_back :
     snd (Gen_StdInsertN.insert_node it_end nh_empty nh_item mv_ pos_of ts_insert inserted_of mTreeSet mSelf node) = mv_ node.
 Proof. exact gen_std_insert_node_refused_comes_back. Qed.
 Print Assumptions C10_gen_std_insert_node_refused_comes_back.
+
+(* ---- the element hand-over loops, DUMPED from the clang AST (Gen_MergeProto.v, deep embedding) *)
+(* the facts the hand model depends on, read off the dumped tree of HashSet::pvMergeTo / TreeSet::pvMergeTo: the creator is
+   `iter = pvExtract(iter, newItem)`; the loop asks dstSet.InsertCrt for the key of the current item whether it inserted; a refused
+   item is skipped with ++iter; nothing else happens in the body *)
+Theorem C10_proto_hash_merge_loop_facts : recognise_merge_loop hash_cond Gen_MergeProto.hash_pvMergeTo = Some canonical.
+Proof. exact hash_merge_loop_facts. Qed.
+Print Assumptions C10_proto_hash_merge_loop_facts.
+
+Theorem C10_proto_tree_merge_loop_facts : recognise_merge_loop tree_cond Gen_MergeProto.tree_pvMergeTo = Some canonical.
+Proof. exact tree_merge_loop_facts. Qed.
+Print Assumptions C10_proto_tree_merge_loop_facts.
+
+(* with those facts the loop step is exactly the hand model's step (all merge theorems above are about hstep) ... *)
+Theorem C10_proto_loop_step_is_model_step : forall c multi st, gstep canonical c multi st = hstep c multi st.
+Proof. exact gstep_canonical_is_hstep. Qed.
+Print Assumptions C10_proto_loop_step_is_model_step.
+
+(* ... and each deviating fact is refuted: a creator that does not extract duplicates the item, a loop that does not advance on
+   refusal never gets past a refused item *)
+Theorem C10_proto_non_extracting_creator_refuted :
+  let st := Nat.iter 3 (gstep (LF false true true true true) NTM false) (hinit [[100]] [] (W [] [] [] [])) in
+  s_dst st = [100] /\ src_items st = [100] /\ ~ Permutation (src_items st ++ s_dst st) ([100] ++ []).
+Proof. exact gstep_non_extracting_creator_duplicates. Qed.
+Print Assumptions C10_proto_non_extracting_creator_refuted.
+
+Theorem C10_proto_not_advancing_refuted :
+  let f := LF true true true false true in
+  let st0 := gstep f NTM false (hinit [[100]] [150] (W [] [] [] [])) in
+  gstep f NTM false st0 = st0 /\ s_stat st0 = Running /\ s_idx st0 = 1%nat.
+Proof. exact gstep_not_advancing_makes_no_progress. Qed.
+Print Assumptions C10_proto_not_advancing_refuted.
+
+(* the trees of pvExtract (both containers) and pvMergeToLinear are the trees the hand model was written from *)
+Theorem C10_proto_hash_pvExtract_tree : Gen_MergeProto.hash_pvExtract = expected_hash_pvExtract.
+Proof. exact hash_pvExtract_is_the_modelled_tree. Qed.
+Print Assumptions C10_proto_hash_pvExtract_tree.
+
+Theorem C10_proto_tree_pvExtract_tree : Gen_MergeProto.tree_pvExtract = expected_tree_pvExtract.
+Proof. exact tree_pvExtract_is_the_modelled_tree. Qed.
+Print Assumptions C10_proto_tree_pvExtract_tree.
+
+Theorem C10_proto_tree_pvMergeToLinear_tree : Gen_MergeProto.tree_pvMergeToLinear = expected_tree_pvMergeToLinear.
+Proof. exact tree_pvMergeToLinear_is_the_modelled_tree. Qed.
+Print Assumptions C10_proto_tree_pvMergeToLinear_tree.
